@@ -51,7 +51,7 @@ def run(tier, seed):
     nseq = 8 if tier == "quick" else 80
     for exp in ("vanilla", "tbc", "wrath"):
         for d in ("server", "client"):
-            for api in ("enum", "expect"):
+            for api in ("enum", "expect", "expectother"):
                 # deterministic boundary sequence first (corpus of past failures), then random ones
                 fixed = [[("w", l), ("p" if d == "server" else "w", 7)] for l in (0x7FFB, 0x7FFC, 0x7FFD, 0x7FFE, 0x7FFF, 0x8000)]
                 seqs = fixed + [[(("p" if (d == "server" and rng.below(4) == 0) else "w"), (rng.choice(pool) if rng.below(3) == 0 else rng.below(400))) for _ in range(1 + rng.below(30))] for _ in range(nseq)]
